@@ -164,6 +164,8 @@ func C07(c *Ctx) {
 	c.R.Rule("C07-R6", "E2", "interface-keyed maps get hashable keys only", 2)
 	c.R.Rule("C07-R7", "E1", "recursive functions see only canonicalised (acyclic) values", 1)
 	c.R.Rule("C07-R8", "E3", "Compile establishes what processing assumes: a compiled spec has no null node and no null branch", 2)
+	c.R.Rule("C07-R9", "E3", "the matcher's recursion consumes the message: a bound variable string is not expanded again", 1)
+	c07Termination(c)
 
 	coreFns := c.P.FuncsIn("core")
 	fns := c.processingClosure()
@@ -1434,4 +1436,97 @@ func nonNilEdges(v ssa.Value) []*ssa.BasicBlock {
 		}
 	}
 	return out
+}
+
+// c07Termination: C07-R9.  Every recursive step of the matcher hands on a part of the pattern it was given, with
+// one exception: a bound variable's value is used as the pattern.  That expansion consumes nothing of the message
+// when the value is itself a variable string (a message value "?x" bound to ?x), so it must not be reachable for
+// such a value: the recursion would only end with the stack.
+func c07Termination(c *Ctx) {
+	m := c.newMatchModel()
+	n := 0
+	for _, f := range m.fns {
+		ssau.Instrs(f, func(in ssa.Instruction) {
+			cl, ok := in.(*ssa.Call)
+			if !ok {
+				return
+			}
+			sc := cl.Common().StaticCallee()
+			if sc == nil || !m.inSet[sc] {
+				return
+			}
+			// a recursive step: the callee leads back to this function
+			back := false
+			for _, g := range pkgClosure(sc) {
+				if g == f {
+					back = true
+				}
+			}
+			if !back {
+				return
+			}
+			// the pattern operand: the first operand of empty-interface type
+			var pat ssa.Value
+			for i, p := range sc.Params {
+				if it, isI := p.Type().Underlying().(*types.Interface); isI && it.NumMethods() == 0 && i < len(cl.Common().Args) {
+					pat = cl.Common().Args[i]
+					break
+				}
+			}
+			if pat == nil {
+				return
+			}
+			// is it a value looked up in bindings?
+			var bound ssa.Value
+			for _, d := range phiDefs(pat, nil, map[ssa.Value]bool{}) {
+				v := d
+				if ex, isEx := v.(*ssa.Extract); isEx && ex.Index == 0 {
+					v = ex.Tuple
+				}
+				if lk, isLk := v.(*ssa.Lookup); isLk && isBindingsT(lk.X.Type()) {
+					bound = d
+				}
+			}
+			if bound == nil {
+				return
+			}
+			n++
+			key := fmt.Sprintf("%s: a bound value that is a variable string is not expanded again #%d", fname(blameCaller(f, m.fns)), n)
+			// the guard: bound.(string) and IsVariable of that string
+			okGuard := false
+			for _, r := range ssau.Referrers(bound) {
+				ta, isTA := r.(*ssa.TypeAssert)
+				if !isTA || !ta.CommaOk || !types.Identical(ta.AssertedType, types.Typ[types.String]) {
+					continue
+				}
+				var str, isStr ssa.Value
+				for _, r2 := range ssau.Referrers(ta) {
+					if ex, isEx := r2.(*ssa.Extract); isEx {
+						if ex.Index == 0 {
+							str = ex
+						} else {
+							isStr = ex
+						}
+					}
+				}
+				if str == nil || isStr == nil {
+					continue
+				}
+				for _, r2 := range ssau.Referrers(str) {
+					iv, isC := r2.(*ssa.Call)
+					if !isC || iv.Common().StaticCallee() == nil || iv.Common().StaticCallee().Name() != "IsVariable" {
+						continue
+					}
+					facts := []flow.Fact{{Cond: isStr, True: true}, {Cond: iv, True: true}}
+					if flow.InstrDominates(ta, cl) && !flow.ReachableUnder(ta.Block(), facts, cl.Block()) {
+						okGuard = true
+					}
+				}
+			}
+			c.R.Check(okGuard, "C07-R9", key, c.pos(cl), "unreachable when the bound value is a string that IsVariable", "the value bound to a variable is matched as a pattern even when it is itself a variable string: a message value like \"?x\" bound to ?x is looked up again without consuming anything of the message, and the recursion ends with a fatal stack overflow that no recover can intercept")
+		})
+	}
+	if n == 0 {
+		c.R.Break("C07-R9: the matcher never uses a bound value as a pattern")
+	}
 }
